@@ -205,7 +205,20 @@ pub fn next_op(rng: &mut Rng, cfg: &Cfg, model: &[Vec<(u32, u64)>], step: usize)
             let pr = gen_priorities(rng, cfg.manual_prio, 4)[rng.usize_below(4)];
             Op::ManualInsert { slot, pos, value: value_for(rng, cfg, m, pos), priority: pr }
         }
-        3 => Op::RemoveAt { slot, pos: rng.usize_below(len.max(1)) },
+        3 => {
+            let pos = rng.usize_below(len.max(1));
+            if rng.chance(1, 3) {
+                // the removed item is put back as remove_at returned it (same place in the sorted
+                // flavour, so that threshold predicates stay monotone)
+                if cfg.flavour == Flavour::Sorted {
+                    Op::MoveItem { slot, pos, dst: slot, dst_pos: pos, how: 0 }
+                } else {
+                    Op::MoveItem { slot, pos, dst: if rng.chance(2, 3) { slot } else { rng.usize_below(cfg.slots) }, dst_pos: rng.usize_below(len + 1), how: rng.below(3) as u8 }
+                }
+            } else {
+                Op::RemoveAt { slot, pos }
+            }
+        }
         4 => {
             let dst = if rng.chance(1, 2) { slot } else { rng.usize_below(cfg.slots) };
             // moving a tail in front of another sorted sequence rarely keeps it sorted; in the
